@@ -273,12 +273,8 @@ def apply_invalid(h, kind, arg):
     elif kind == "rdiv":
         2 / h
     elif kind == "imul_negative":
-        if not np.any(np.asarray(h.frequencies) > 0):
-            return NotImplemented  # accepted on all-zero contents: C06's known finding, nothing turns negative
         h *= -2
     elif kind == "idiv_negative":
-        if not np.any(np.asarray(h.frequencies) > 0):
-            return NotImplemented
         h /= -2.0
     elif kind == "imul_array":
         h *= np.ones(shape) * 2
